@@ -1,7 +1,54 @@
-(* C20 - placeholder until Proofs/FilterFacts.v is complete *)
-From Coq Require Import List ZArith QArith Qcanon.
-From MsmV Require Import Lib.QMat Model.Filter.
+(* C20 - Smoothing filters are per-column, shape-preserving weighted averages.
+   Statements only; proofs in Proofs/FilterFacts.v.  The theorems hold for EVERY
+   odd-length, non-negative, normalised, symmetric kernel; that SciPy's kernel is
+   the truncated Gaussian is validated numerically by the harness. *)
+From Coq Require Import List ZArith Arith Bool QArith Qcanon.
+From MsmV Require Import Lib.Result Lib.PyList Lib.QMat Model.Filter Proofs.FilterFacts.
 Import ListNotations.
+Local Open Scope nat_scope.
+
+Theorem gfilt_length_thm : forall w xs, length (gfilt w xs) = length xs.
+Proof. exact gfilt_length. Qed.
+Print Assumptions gfilt_length_thm.
+
+Theorem gfilt_linear_thm : forall w xs ys a b, length xs = length ys ->
+  gfilt w (map (fun p => (a * fst p + b * snd p)%Qc) (combine xs ys))
+  = map (fun p => (a * fst p + b * snd p)%Qc) (combine (gfilt w xs) (gfilt w ys)).
+Proof. exact gfilt_linear. Qed.
+Print Assumptions gfilt_linear_thm.
+
+Theorem gfilt_const_thm : forall w c n, qsum w = 1%Qc -> gfilt w (repeat c n) = repeat c n.
+Proof. exact gfilt_const. Qed.
+Print Assumptions gfilt_const_thm.
+
+Theorem gfilt_bounds_thm : forall w xs lo hi, (forall x, In x w -> (0 <= x)%Qc) -> qsum w = 1%Qc ->
+  (forall x, In x xs -> (lo <= x)%Qc /\ (x <= hi)%Qc) ->
+  forall y, In y (gfilt w xs) -> (lo <= y)%Qc /\ (y <= hi)%Qc.
+Proof. exact gfilt_bounds. Qed.
+Print Assumptions gfilt_bounds_thm.
+
+Theorem gfilt_reverse_thm : forall w xs, kernel_ok w -> gfilt w (rev xs) = rev (gfilt w xs).
+Proof. exact gfilt_reverse. Qed.
+Print Assumptions gfilt_reverse_thm.
+
+(* a table is filtered column by column: definitional (gfilt2d maps gfilt over the columns) *)
+Theorem gfilt2d_columnwise : forall w tbl, gfilt2d w tbl = transpose (map (gfilt w) (transpose tbl)).
+Proof. reflexivity. Qed.
+Print Assumptions gfilt2d_columnwise.
+
+Theorem rm_length : forall xs w, length (runningmean xs w) = length xs.
+Proof. exact runningmean_length. Qed.
+Print Assumptions rm_length.
+
+Theorem rm_eq_window : forall xs w i, 1 <= w -> i < length xs ->
+  nth i (runningmean xs w) 0%Qc = window_mean xs w i.
+Proof. exact runningmean_window. Qed.
+Print Assumptions rm_eq_window.
+
+Theorem rm_w1_id : forall xs, runningmean xs 1 = xs.
+Proof. exact runningmean_w1. Qed.
+Print Assumptions rm_w1_id.
+
 Example rm_example :
   map (fun q : Qc => this q) (runningmean [1; 1 + 1; 1 + 1 + 1; 1 + 1 + 1 + 1]%Qc 4) = [3 # 4; 3 # 2; 5 # 2; 9 # 4]%Q.
 Proof. vm_compute. reflexivity. Qed.
